@@ -13,8 +13,10 @@ EXTENDS ExcelValues, Json
 
 CONSTANTS Ops,       \* sequence of operator names; unary ones ("u-", "%") use a only
           Pool,      \* sequence of values (numbers, text, logicals, blank, errors)
-          Triples    \* FALSE: walk pairs for every operator
+          Triples,   \* FALSE: walk pairs for every operator
                      \* TRUE : walk triples (the comparison order) once
+          Dev        \* [some values -> value]: a known deviation of the implementation,
+                     \* given as another reading of some operands (see DevResult)
 
 VARIABLES o, i, j, k,      \* indices into Ops, Pool, Pool, Pool
           res              \* the defined result at the cursor (a function of
@@ -31,6 +33,18 @@ Unary == Op \in UnaryOps
 \* the operator at the cursor applied by the definitions of ExcelValues
 Result(oo, ii, jj) == IF Ops[oo] \in UnaryOps THEN Apply1(Ops[oo], Pool[ii])
                       ELSE Apply(Ops[oo], Pool[ii], Pool[jj])
+
+(* A known deviation (finding C10_r3_2): pycel represents an error value by *)
+(* the text of its code, so a text operand spelled like one is taken for   *)
+(* the error value.  Dev maps such operands to what they are taken for.    *)
+(* The defined result never depends on Dev; the deviant result is exported *)
+(* next to it so that the harness attributes a discrepancy to the          *)
+(* deviation exactly when the code returns the deviant result.  <<>>: the  *)
+(* operands at the cursor have no deviant reading.                         *)
+Dv(v) == IF v \in DOMAIN Dev THEN Dev[v] ELSE v
+Apply2(op, a, b) == IF op \in UnaryOps THEN Apply1(op, a) ELSE Apply(op, a, b)
+DevResult == IF A \in DOMAIN Dev \/ (~Unary /\ B \in DOMAIN Dev)
+             THEN Apply2(Op, Dv(A), Dv(B)) ELSE <<>>
 
 \* Init chooses the operator and the left operand (and, for triples, the
 \* middle one); the cursor then advances through the last operand.
@@ -145,6 +159,7 @@ Transitive == (Triples /\ NonBlankScalar(A) /\ NonBlankScalar(B) /\ NonBlankScal
 (* here (the harness refuses a run in which a law was never exercised).    *)
 ExportPair ==
   PrintT(ToJson([at |-> <<o, i, j, k>>, op |-> Op, a |-> A, b |-> IF Unary THEN <<>> ELSE B, r |-> R,
+     dev |-> DevResult,
      ante |-> [errL |-> B2N(IsErr(A)),
                errR |-> B2N(~Unary /\ ~IsErr(A) /\ IsErr(B)),
                div0 |-> B2N(DivZeroCase),
@@ -159,6 +174,9 @@ CmpSeq == <<"=", "<>", "<", "<=", ">", ">=">>
 ExportTriple ==
   PrintT(ToJson([at |-> <<o, i, j, k>>, a |-> A, b |-> B, c |-> C,
      nested |-> [q \in 1..6 |-> Compare(CmpSeq[q], Compare(CmpSeq[q], A, B), C)],
+     dev    |-> IF A \in DOMAIN Dev \/ B \in DOMAIN Dev \/ C \in DOMAIN Dev
+                THEN [q \in 1..6 |-> Compare(CmpSeq[q], Compare(CmpSeq[q], Dv(A), Dv(B)), Dv(C))]
+                ELSE <<>>,
      chain  |-> B2N(NonBlankScalar(A) /\ NonBlankScalar(B) /\ NonBlankScalar(C)
                     /\ Le(A, B) /\ Le(B, C))]))
 
